@@ -1,8 +1,8 @@
 """E7: schedule exploration for Python threads calling pure-Python library code.
 
 The threads are real `threading.Thread`s but only the one holding the baton runs: every thread blocks on its own semaphore,
-and a `sys.settrace` line tracer installed in each thread calls the scheduler at every *scheduling point* - a line event in a
-frame selected by `is_point(frame)` (typically: the functions of one module that touch a module-level cache).  A schedule is
+and a `sys.settrace` line tracer installed in each thread calls the scheduler at every *scheduling point* - a line event (with
+`opcodes=True`: a bytecode event, so that two calls inside one statement can be separated) in a frame selected by `is_point(frame)` (typically: the functions of one module that touch a module-level cache).  A schedule is
 the set of global point numbers at which the baton is handed to the next runnable thread; exploration enumerates all schedules
 with at most `bound` such preemptions (CHESS-style), every one executed on the real code.  A thread that finishes hands the
 baton on.  The library under test must not block on real locks inside the traced region (none of the explored code does).
@@ -12,8 +12,9 @@ import sys, threading, itertools
 
 
 class _Run:
-    def __init__(self, funcs, is_point, switches):
+    def __init__(self, funcs, is_point, switches, opcodes=False):
         self.funcs, self.is_point, self.switches = funcs, is_point, set(switches)
+        self.opcodes = opcodes
         self.n = len(funcs)
         self.sems = [threading.Semaphore(0) for _ in funcs]
         self.done = [False] * self.n
@@ -46,13 +47,17 @@ class _Run:
     def _body(self, tid):
         self.sems[tid].acquire()
 
+        want = "opcode" if self.opcodes else "line"
+
         def local(frame, event, arg):
-            if event == "line":
+            if event == want:
                 self._point(tid)
             return local
 
         def tracer(frame, event, arg):
             if event == "call" and self.is_point(frame):
+                if self.opcodes:
+                    frame.f_trace_opcodes = True       # a scheduling point before every bytecode: two calls in ONE statement can be split
                 return local
             return None
         sys.settrace(tracer)
@@ -82,19 +87,19 @@ class _Run:
         return self
 
 
-def run(funcs, is_point, switches=()):
+def run(funcs, is_point, switches=(), opcodes=False):
     """one execution: returns (results, errors, number of scheduling points seen, switch trace)"""
-    r = _Run(funcs, is_point, switches).go()
+    r = _Run(funcs, is_point, switches, opcodes).go()
     return r.results, r.errors, r.counter, r.trace
 
 
-def explore(make_funcs, is_point, bound=1, reset=None, max_exec=20000):
+def explore(make_funcs, is_point, bound=1, reset=None, max_exec=20000, opcodes=False):
     """every schedule with at most `bound` preemptions.  make_funcs() -> fresh list of thread bodies; reset() restores the shared state
     before each execution.  Yields (switches, results, errors).  The number of points may depend on the schedule: switch positions
     are enumerated up to the number of points seen in the execution that reaches furthest."""
     if reset:
         reset()
-    res, err, npts, _ = run(make_funcs(), is_point, ())
+    res, err, npts, _ = run(make_funcs(), is_point, (), opcodes)
     yield (), res, err
     seen_max = npts
     execs = 1
@@ -106,6 +111,6 @@ def explore(make_funcs, is_point, bound=1, reset=None, max_exec=20000):
                 return
             if reset:
                 reset()
-            res, err, npts, _ = run(make_funcs(), is_point, sw)
+            res, err, npts, _ = run(make_funcs(), is_point, sw, opcodes)
             execs += 1
             yield sw, res, err
